@@ -180,6 +180,10 @@ func (d *c19DB) runCase(cs c19Case) (problem string, nontrivial bool, desc strin
 	names := make([]string, len(cs.types))
 	for i, t := range cs.types {
 		names[i] = fmt.Sprintf("c%d", i)
+		if cs.viaFlags {
+			// (column names with capital letters when the configuration comes from the command line)
+			names[i] = []string{"Col", "cOL", "COL"}[i%3] + fmt.Sprint(i)
+		}
 		if t == "varchar" {
 			ddl = append(ddl, names[i]+" varchar(255)")
 		} else {
